@@ -2,11 +2,12 @@
 // built once per tasking backend (ASan+UBSan).  One mode per process; one canonical line per case.
 //   harness burst <N>            N schedule() calls, closures own heap state, one counter each
 //   harness async <reps>         async() over int / long string / vector<int> / slow-logging type
-//   harness asynctask <reps> <type>  AsyncTask<T> over the same types + lifetime-instrumented payload
+//   harness asynctask <reps> <type> [script]  AsyncTask<T> over the same types + lifetime-instrumented payload
 //   harness destroy <reps>       destroy an AsyncTask while its task still runs
 //   harness parkburst <T> <N>    T tasking threads, T-1 workers parked, burst of N > pipe size from the caller
 //   harness nested <T> <iters>   scheduled closure schedules a same-type closure and waits inside the tasking system
 //   harness wakeup <T> <ms>      one schedule() at a time, timed to the worker's spin-to-sleep transition; each must run within 2 s
+//   harness arena <reps>         (TBB) first schedule() of a functor type from inside a small task_arena, later ones from main
 //   harness onethread            tasking system initialised with 1 thread, one schedule(), no waiting
 #include <algorithm>
 #include <atomic>
@@ -30,6 +31,10 @@
 #include "rkcommon/tasking/parallel_for.h"
 #include "rkcommon/tasking/schedule.h"
 #include "rkcommon/tasking/tasking_system_init.h"
+
+#if defined(RKCOMMON_TASKING_TBB)
+#include "tbb/task_arena.h"
+#endif
 
 using namespace rkcommon::tasking;
 typedef std::chrono::steady_clock clk;
@@ -292,11 +297,13 @@ template <typename T> static void asynctask_one(const char *script, int i, int w
   (void)ended_before_dtor;
   fflush(stdout);
 }
+static std::string g_only_script;   // optional filter: run only this client script
 template <typename T> static void asynctask_type(int reps)
 {
   for (int r = 0; r < reps; ++r)
     for (const char *s : SCRIPTS)
-      asynctask_one<T>(s, r, (r % 3 == 0) ? 0 : (r % 3 == 1 ? 2 : 12));
+      if (g_only_script.empty() || g_only_script == s)
+        asynctask_one<T>(s, r, (r % 3 == 0) ? 0 : (r % 3 == 1 ? 2 : 12));
 }
 static int mode_asynctask(int reps, const std::string &type)
 {
@@ -562,6 +569,64 @@ static int mode_wakeup(int T, int budget_ms)
   _exit(0);
 }
 
+// ------------------------------------------------ schedule() must use the CALLER's arena on every call (TBB)
+// First schedule() of a functor type is issued from inside a small tbb::task_arena(2,1) with a long-running closure
+// (occupying that arena's only worker); then schedule() of the SAME functor type from the main thread must run
+// within 2 s.  Other asynchronous backends: the same without the arena (a long-running closure must not block later ones).
+namespace arena_case {
+  struct Fn
+  {
+    int role;   // 1: long-running (spins until released), 0: counted
+    std::atomic<int> *started, *release, *counter;
+    void operator()() const
+    {
+      if (role == 1) {
+        (*started)++;
+        auto t0 = clk::now();
+        while (release->load() == 0 && ms_since(t0) < 8000)
+          std::this_thread::yield();
+        return;
+      }
+      (*counter)++;
+    }
+  };
+}
+static int mode_arena(int reps)
+{
+  using arena_case::Fn;
+  std::atomic<int> *started = new std::atomic<int>(0), *release = new std::atomic<int>(0), *counter = new std::atomic<int>(0);
+#if defined(RKCOMMON_TASKING_TBB)
+  tbb::task_arena small(2, 1);
+  small.execute([&]() { schedule(Fn{1, started, release, counter}); });
+  const char *how = "first-call-inside-task_arena(2,1)";
+#else
+  schedule(Fn{1, started, release, counter});
+  const char *how = "first-call-long-running";
+#endif
+  auto t0 = clk::now();
+  while (started->load() == 0 && ms_since(t0) < 3000)
+    sleep_ms(1);
+  int long_started = started->load();
+  int ran = 0;
+  double worst = 0;
+  for (int i = 0; i < reps; ++i) {
+    int before = counter->load();
+    schedule(Fn{0, started, release, counter});
+    auto t1 = clk::now();
+    while (counter->load() == before && ms_since(t1) < 2000)
+      sleep_ms(1);
+    double w = ms_since(t1);
+    if (w > worst) worst = w;
+    if (counter->load() > before) ran++; else break;
+  }
+  release->store(1);
+  sleep_ms(50);
+  printf("ARENA how=%s long_running_started=%d later_calls=%d ran_within_2s=%d worst_ms=%.1f ran_after_release=%d\n", how, long_started, reps, ran,
+      worst, counter->load());
+  fflush(stdout);
+  _exit(0);
+}
+
 int main(int argc, char **argv)
 {
   if (argc < 2) return 2;
@@ -573,9 +638,13 @@ int main(int argc, char **argv)
   if (m == "parkburst") return mode_parkburst(n, argc > 3 ? atoi(argv[3]) : 300);
   int nt = 4;
   initTaskingSystem(nt);
+  if (m == "arena") return mode_arena(n);
   if (m == "burst") return mode_burst(n);
   if (m == "async") return mode_async(n);
-  if (m == "asynctask") return mode_asynctask(n, argc > 3 ? argv[3] : "int");
+  if (m == "asynctask") {
+    if (argc > 4) g_only_script = argv[4];
+    return mode_asynctask(n, argc > 3 ? argv[3] : "int");
+  }
   if (m == "destroy") return mode_destroy(n);
   return 2;
 }
